@@ -28,16 +28,19 @@ def dt_us(d):
 class Recorder:
     """virtual clock + oracle graphs of one run"""
 
-    def __init__(self, rng=None, frozen=None):
+    def __init__(self, rng=None, frozen=None, step=None):
         self.rng = rng
         self.frozen = frozen
+        self.step = step          # fixed advance (microseconds) per utcnow() call: a virtual clock that moves
         self.now = NOW0 if frozen is None else frozen
         self.readings = []
         self.dates = {}
         self.renders = {}
 
     def utcnow(self):
-        if self.frozen is None:
+        if self.step is not None:
+            self.now += self.step
+        elif self.frozen is None:
             r = self.rng.random()
             self.now += 0 if r < 0.3 else (self.rng.randrange(1, 50) if r < 0.7
                                            else self.rng.randrange(1, 3 * 10 ** 9))
@@ -466,6 +469,65 @@ def scenario_stream(rng, DEF, g, tag, keys):
             else:
                 req('GET_PORT', k)
     return segs
+
+
+MAX_TIME = [99, 99, 12, 31, 23, 59, 59, 255]     # 9999-12-31 23:59:59.999999: the last instant datetime can hold
+
+
+def raising_frames(DEF, g, sa):
+    """[set_time to the last representable instant, a time query]: with a clock that moves, the query makes
+    `last_cmd_date - time_offset` overflow (OverflowError escapes parse) -- the one exception a handler can
+    still raise on the fixed tree (Proofs/RcvTotal.v)"""
+    rng = g.rng
+    q = rng.choice(['GET_TIME', 'INQUIRY'])
+    return [build(DEF, 'SET_TIME', rng.random() < 0.5, sa, g.byte(), g.byte(), MAX_TIME),
+            build(DEF, q, rng.random() < 0.5, sa, g.byte(), g.byte())]
+
+
+def check_after_exception(ctx, DEF, cfg, prefix, rng, klass_prefix=''):
+    """C03 / C18 on the implementation: history `prefix`, then a frame that makes a handler raise (virtual
+    clock moving 1 ms per reading -- no real waiting), then ordinary requests.  After the raising frame the
+    parser must be idle and the next well-formed requests must be framed and answered as usual."""
+    rec = Recorder(step=1000)
+    S = install(rec)
+    system = make_system(*cfg)
+    g = Gen(rng, DEF, cfg[0])
+    stream = [list(x) for x in prefix]
+    for seg in stream:
+        feed(system, seg)
+    feed(system, [0x55] * 263)
+    stream.append([0x55] * 263)
+    bro = [ord(c) for c in DEF.SLAVE_ADDR_BROADCAST]
+    good = [k for k in (one(k) for k in system.slaves) if k not in bro]
+    if not good:
+        return None
+    sa = rng.choice(good)
+    st, q = raising_frames(DEF, g, sa)
+    feed(system, st)
+    stream.append(st)
+    outs = feed(system, q)
+    stream.append(q)
+
+    def bad(klass, what, **w):
+        ctx.fail(klass_prefix + klass, what, dict(w, config=list(cfg), stream=[list(x) for x in stream],
+                                                  clock='virtual, +1 ms per utcnow()'))
+    if outs[-1][0] != 3:
+        return False          # this tree does not raise here: nothing to check
+    if system.msg != '':
+        bad('not_idle_after_exception', 'after a frame whose handler raised the parser is not idle: the bytes of '
+            'that frame stay in the buffer', buffered=len(system.msg))
+        return True
+    for kind in ('GET_FRAME', 'GET_ADDR', 'VERSION'):
+        m = build(DEF, kind, rng.random() < 0.5, sa, g.byte(), g.byte())
+        outs = feed(system, m)
+        stream.append(m)
+        fr = decode_answer(DEF, outs[-1][1]) if outs[-1][0] == 2 else None
+        if any(t != 1 for t, _ in outs[:-1]) or not fr or len(fr) != 1 or fr[0]['slave'] != sa or \
+                (fr[0]['master'], fr[0]['cmd'], fr[0]['id']) != (m[2], m[3], m[4]):
+            bad('unanswered_after_exception', 'a well-formed request after a frame whose handler raised is not '
+                'answered once by the addressed board', request=m, outcome=outs[-1][0])
+            return True
+    return True
 
 
 CONFIGS = [(1, 1), (1, 3), (1, 5), (0x7D, 0x7D), (0x7C, 0x7E), (2, 6), (1, 2), (0, 2), (0x7E, 0x80), (5, 4)]
